@@ -26,6 +26,11 @@ RULE = ('interface DAG (2-7, <=3 bases), classes created at any point '
 GC_EVERY = 20
 
 
+# thorough tier: coverage-guided campaigns on top of the random ones
+ATHERIS = [{'impl': 'py', 'n': 20000, 'name': 'py-atheris'},
+           {'impl': 'c', 'n': 20000, 'name': 'c-atheris'}]
+
+
 def configs(tier, seed):
     n = 1500 if tier == 'quick' else 16000
     return [{'name': impl + '-decl', 'impl': impl, 'mode': 'hyp', 'n': n}
